@@ -31,7 +31,7 @@ MAIN = 'xdoctest.__main__.main'
 
 
 def run(ctx):
-    for fn in (r1_flags, r2_failed_list, r3_keys, r4_exit_status, r5_gathering, r6_disable_marker_anchored, r7_no_mutation_of_iterated_lists, r8_list_names_every_example, r9_native_mode_is_set):
+    for fn in (r1_flags, r2_failed_list, r3_keys, r4_exit_status, r5_gathering, r6_disable_marker_anchored, r7_no_mutation_of_iterated_lists, r8_list_names_every_example, r9_native_mode_is_set, r10_rerun_command_names_one_doctest):
         ctx.rep.rule(fn, ctx)
 
 
@@ -662,6 +662,26 @@ def r5_gathering(ctx):
     rep.ob('C10.R5', ctx.loc(f, calls[0] if calls else f.node), '_run_examples(enabled_examples, ...)', ok, 'the gathered list is the list that is run' if ok else 'the list handed to the run loop is not the gathered list', nontrivial=False, anchor=DM)
 
 
+def r10_rerun_command_names_one_doctest(ctx):
+    """what `list` prints and what the failure summary offers for re-running is DocTest.cmdline: in native mode it must name ONE doctest, i.e.
+    end with the unique call name (`func:0`), not with the name of the callable, which all doctests of one docstring share"""
+    rep = ctx.rep
+    q = 'xdoctest.doctest_example.DocTest.cmdline'
+    f = ctx.func(q)
+    g = ctx.cfg(f)
+    recv = f.node.args.args[0].arg
+    rets = [n for n in g.nodes if n.kind == 'stmt' and not n.dup and isinstance(n.ast, ast.Return) and n.ast.value is not None and
+            any(isinstance(x, ast.Constant) and isinstance(x.value, str) and 'xdoctest' in x.value for x in ast.walk(n.ast.value))]
+    rep.floor('C10.R10', 'native re-run commands built by DocTest.cmdline', len(rets), 1)
+    for n in rets:
+        attrs = [x.attr for x in ast.walk(n.ast.value) if isinstance(x, ast.Attribute) and is_name(x.value, recv)]
+        ok = 'unique_callname' in attrs and 'callname' not in attrs
+        rep.ob('C10.R10', ctx.loc(f, n.ast), ctx.src(n.ast, 100), ok,
+               'the command names the doctest by its unique call name' if ok else
+               'the command names the doctest by %s: every doctest of one callable gets the same name, `list` shows duplicates, and feeding a listed name back runs all of them '
+               '(a force-disabled sibling included) instead of one' % ([a for a in attrs if a != 'modpath' and a != 'modname'] or 'nothing'), anchor=q)
+
+
 # ---------------------------------------------------------------------------
 FLAG_NAMES = {'I': 'IGNORECASE', 'M': 'MULTILINE', 'S': 'DOTALL', 'X': 'VERBOSE', 'A': 'ASCII', 'U': 'UNICODE', 'L': 'LOCALE'}
 
@@ -1022,6 +1042,7 @@ RN = 'xdoctest/runner.py'
 MA = 'xdoctest/__main__.py'
 DE = 'xdoctest/doctest_example.py'
 VARIANTS = [
+    fire('rerun-command-names-the-callable', 'C10.R10', ('xdoctest/doctest_example.py', "                # Probably safer to always use the path\n                return 'python -m xdoctest ' + self.modpath + ' ' + self.unique_callname\n", "                # Probably safer to always use the path\n                return 'python -m xdoctest ' + self.modpath + ' ' + self.callname\n")),
     fire('native-runner-keeps-pytest-mode', 'C10.R9', (RN, "        for example in examples:\n            example.mode = 'native'\n", "        for example in examples:\n            pass\n")),
     fire('dump-converts-disabled-doctests', 'C10.R5', (RN, "                if gather_all and example.is_disabled():\n", "                if command == 'all' and example.is_disabled():\n")),
     fire('two-disable-markers-fused', 'C10.R6', (DE, "            r'>>>\\s*#\\s*SCRIPT',\n", "            r'>>>\\s*#\\s*SCRIPT'\n")),
